@@ -96,7 +96,8 @@ def run(ctx):
         jobs.append(dict(text=text, opts=['--strategy', ['ddmin', 'hierarchical'][i % 2], '-j', str(1 + i), '--memout', '200', '--ignore-output', '--disable-all', '--erase-node'],
                          cmd=[FAULTY, 'alloc'], env={}, timeout=90, mode='alloc', which=[]))
     t0 = time.time()
-    runs = e2e.run_many([{k: v for k, v in j.items() if k not in ('mode', 'which')} for j in jobs], workers=6)
+    # the time limits (explicit or default) are the subject here: no limits added by the harness
+    runs = e2e.run_many([dict({k: v for k, v in j.items() if k not in ('mode', 'which')}, safe_limits=False) for j in jobs], workers=6)
     for j, r in zip(jobs, runs):
         checks = r.ev('check')
         golden = r.ev('golden')
@@ -155,7 +156,7 @@ def run(ctx):
                            # the same for the match strings of the cross-check command (its golden run may also time out)
                            (['-c', cc, '--match-out-cc', 'nosuchstring'], 'exit1'), (['-c', cc, '--match-err-cc', 'nosuchstring'], 'exit1'),
                            (['-c', cch, '--match-out-cc', 'bug', '--timeout-cc', '0.3'], 'exit1')):
-        r = e2e.run_ddsmt(text, ['--strategy', 'hybrid'] + extra, [FAULTY, cmdmode], timeout=120)
+        r = e2e.run_ddsmt(text, ['--strategy', 'hybrid'] + extra, [FAULTY, cmdmode], timeout=120, safe_limits=False)
         ctx.case(['golden-match', extra, cmdmode], True)
         ctx.count('golden match-string validation')
         if r.rc != 1 or r.ev('check') or 'Traceback' in r.stderr or r.outtext is not None:
@@ -169,6 +170,6 @@ def run(ctx):
 
 
 def replay(d):
-    r = e2e.run_ddsmt(d['input'], d['options'], d['command'], timeout=400)
+    r = e2e.run_ddsmt(d['input'], d['options'], d['command'], timeout=400, safe_limits=False)
     print('rc', r.rc, 'hung', r.hung, 'output', r.outtext)
     return 1 if (r.hung or r.rc != 0 or (r.outtext and faulty_content(r.outtext))) else 0
